@@ -156,6 +156,28 @@ def run(ctx, rep):
         bad = [x for x in attrs if "serde" in x and any(k in x for k in ("skip", "default", "rename", "flatten", "with", "alias"))]
         rep.check(not bad, "R15.2", "R15.2|attrs|%s" % name, "no serde skip/default/rename attributes on %s" % name, where(f.adts[a]["span"]),
                   "serde attribute(s) %s make the written and the read statistics differ / hide a field" % bad)
+    # serialised / deserialised field names (from the derive expansions) equal the struct's fields: catches skip, rename, default-on-missing
+    for a in structs:
+        name = a.split("::")[-1]
+        fields = [fd["name"] for fd in f.adts[a]["variants"][0]["fields"]]
+        ser = [k for k in f.fns if k.endswith("<impl serde::ser::Serialize for %s>::serialize" % a)]
+        fconst = [k for k in f.consts if k.endswith("<impl serde::de::Deserialize<'de> for %s>::deserialize::FIELDS" % a)]
+        if not ser or not fconst:
+            rep.bad("R15.2", "R15.2|fields|%s" % name, "derive expansion of Serialize/Deserialize for %s not found" % name, where(f.adts[a]["span"]))
+            continue
+        sb = cg.body(ser[0])
+        sn = []
+        for bb, t, cal, c in sb.calls(live_only=False):
+            if cal and cal.endswith("SerializeStruct::serialize_field"):
+                o = sb.origin(t["args"][1])
+                while o and o[0] in ("ref", "proj"):
+                    o = o[1]
+                if o[0] == "const" and "str" in o[1]:
+                    sn.append(o[1]["str"])
+        ct = TB(f.consts[fconst[0]], fconst[0])
+        dn = [n["str"] for n in ct.exprs if n["k"] == "Lit" and "str" in n] if ct.ok else []
+        rep.check(sn == fields and dn == fields, "R15.2", "R15.2|fields|%s" % name, "%s: written fields = read fields = struct fields (%d)" % (name, len(fields)), ser[0],
+                  "%s: struct fields %s, serialised %s, deserialised %s — a skipped/renamed field drifts silently" % (name, fields, sn, dn))
     # write_stats serialises &self (the root); Controller::run deserialises the same root type
     ws = ROOT + "::write_stats"
     if ws in f.fns:
